@@ -22,7 +22,7 @@ DATES = ['2020-01-01', '2020-02-29', '1900-01-01', '9999-12-31', '2020-12-31 23:
 TIMES = ['2020-01-01/2020-12-31', '2020-01-01/2020-01-01', '2020-02-01/2020-02-29', '2020', '2020-Q1', None]
 DURS = ['A', 'S', 'Q', 'M', 'W', 'D', 'P1Y', 'P1M', 'P1D', None]
 
-NUM_SCRIPTS = ['DS_N / 0', '1 / DS_N', 'DS_N / DS_N', 'DS_N[calc x := Me_1 / Me_2]', 'ln(DS_N)', 'DS_N[calc x := ln(Me_1)]', 'log(DS_N, 10)', 'log(DS_N, 0)', 'log(DS_N, -2)',
+NUM_SCRIPTS = ['DS_N[calc x := cast("2020M7", time_period)]', 'DS_N[calc x := cast("2020-01-01/2020-12-31", time), y := cast("2021W53", time_period)]', 'DS_N / 0', '1 / DS_N', 'DS_N / DS_N', 'DS_N[calc x := Me_1 / Me_2]', 'ln(DS_N)', 'DS_N[calc x := ln(Me_1)]', 'log(DS_N, 10)', 'log(DS_N, 0)', 'log(DS_N, -2)',
                'log(DS_N, 1)', 'DS_N[calc x := log(10, Me_1)]', 'sqrt(DS_N)', 'DS_N[calc x := sqrt(Me_2)]', 'power(DS_N, 400)', 'power(DS_N, 0.5)', 'power(DS_N, -1)',
                'DS_N[calc x := power(Me_1, Me_2)]', 'exp(DS_N)', 'DS_N[calc x := exp(Me_2)]', 'DS_N * DS_N', 'DS_N[calc x := Me_2 * Me_2]', 'DS_N[calc x := Me_2 + Me_2]',
                'DS_N[calc x := Me_2 * 4]', 'DS_N[calc x := Me_2 - 9223372036854775807]', 'mod(DS_N, 0)', 'DS_N[calc x := mod(Me_2, Me_2)]', 'round(DS_N, 400)', 'round(DS_N, -400)',
